@@ -4,6 +4,7 @@ import ast
 
 from ..core import RuleResult, need
 from ..cfg import cfg_of
+from ..flow import flow_of, path_base
 from ..astutil import src, call_attr, call_name, compare_parts, is_name, path_of, walk_no_nested
 from ..repo import dotted
 
@@ -315,5 +316,46 @@ def rule_l7(repo):
     return res
 
 
+def rule_l8(repo):
+    """load_theory builds every theory from EmptyTheory().  The tables of the new theory (signatures,
+    theorems, the schematic-variable cache of theorems, attributes, overloads) must be new objects: a
+    module-level table handed to add_data_type would be the same object in every theory ever built in
+    the process, and what one load put there is found by the next one."""
+    from .. import persist
+    res = RuleResult('C12.L8', 'every table of a newly built theory is a fresh object', floor=6)
+    THEORY = 'kernel/theory.py'
+    m = repo.module(THEORY)
+    glob = set(persist.module_containers(m)) | {n for n in m.functions} | set(m.classes)
+    adt = repo.func(THEORY, 'Theory.add_data_type')
+    # the default: `if init is None: init = dict()` - a fresh object per call
+    fresh_default = any(isinstance(n, ast.Assign) and any(is_name(t, adt.params()[2]) for t in n.targets) and persist.is_mutable_ctor(n.value)
+                        for n in ast.walk(adt.node)) and not persist.mutable_defaults(adt.node)
+    res.add('%s :: Theory.add_data_type :: fresh-default' % THEORY, fresh_default,
+            'a missing initial value is replaced by a new container inside the call' if fresh_default else
+            'the default initial table is not created per call', adt.loc)
+    calls = 0
+    for mod in repo.source_modules():
+        for f in mod.all_funcs:
+            for c in walk_no_nested(f.node, include_root=False):
+                if not (isinstance(c, ast.Call) and call_attr(c) == 'add_data_type'):
+                    continue
+                calls += 1
+                init = c.args[1] if len(c.args) > 1 else next((k.value for k in c.keywords if k.arg == 'init'), None)
+                nm = src(c.args[0], 30) if c.args else '?'
+                if init is None or persist.is_mutable_ctor(init):
+                    ok, why = True, 'fresh table'
+                else:
+                    flow = flow_of(f.node)
+                    roots = flow.resolve(init)
+                    shared = [r for r in roots if not flow.is_local(path_base(r))]
+                    ok = not shared
+                    why = 'initial value built in the call' if ok else \
+                        'the initial value `%s` is (derived from) `%s`, which is not created in this call: every theory built here shares that ' \
+                        'one table, so entries made while one theory was current are found under the next' % (src(init, 30), shared[0])
+                res.add('%s :: %s :: add_data_type(%s)' % (mod.rel, f.qualname, nm), ok, why, '%s:%d' % (mod.rel, c.lineno))
+    need(calls >= 5, 'fewer than 5 add_data_type calls found')
+    return res
+
+
 def rules(repo):
-    return [rule_l1(repo), rule_l2(repo), rule_l3(repo), rule_l4(repo), rule_l5(repo), rule_l6(repo), rule_l7(repo)]
+    return [rule_l1(repo), rule_l2(repo), rule_l3(repo), rule_l4(repo), rule_l5(repo), rule_l6(repo), rule_l7(repo), rule_l8(repo)]
